@@ -47,7 +47,7 @@ BOUND = {
     "thorough": "tr: subsets <=4; sheet: same with 6-letter alphabet; lang: 14x14; row: L(4,3) x 0..2 triggers",
 }
 # as-built additions to the bound (kept next to BOUND so that the evidence reports them)
-BOUND = {k: v + "; plus: " + 'unlabeled choices with repeated names under allow_choice_duplicates (27 name triples x 7 masks); both id headers with one cell blank / swapped order' for k, v in BOUND.items()}
+BOUND = {k: v + "; plus: " + 'labelled and unlabelled groups / repeats with table-list, field-list and custom appearances; unlabeled choices with repeated names under allow_choice_duplicates (27 name triples x 7 masks); both id headers with one cell blank / swapped order' for k, v in BOUND.items()}
 
 SUPPORTED = {"survey", "choices", "settings", "external_choices", "osm", "entities"}
 SV_COLS = ["label", "hint", "guidance_hint", "constraint_message", "required_message", "image", "audio", "video", "big-image"]
@@ -436,7 +436,7 @@ def check_lang(case):
 # ------------------------------------------------------------------ row -----------------
 NAMES = ["a", "b", "d", "e", "f", "g"]
 Q_TRIG = ["image", "image-maxpx", "subscriberid", "simserial", "deviceid", "phonenumber", "disabled-no", "disabled-yes", "comment"]
-C_TRIG = ["nolabel", "nolabel-fieldlist", "nolabel-media", "disabled-no"]
+C_TRIG = ["nolabel", "nolabel-fieldlist", "nolabel-media", "disabled-no", "label-tablelist", "label-fieldlist", "label-custom", "nolabel-tablelist", "nolabel-custom", "label-hint"]
 
 
 def build_row(forest, trig):
@@ -488,6 +488,14 @@ def build_row(forest, trig):
                     r["appearance"] = "field-list"
                     if kind != "group":
                         exp[("nolabel", rn, kind, nm)] += 1
+                elif tg in ("label-tablelist", "label-fieldlist", "label-custom"):
+                    r["appearance"] = {"label-tablelist": "table-list", "label-fieldlist": "field-list", "label-custom": "w1 compact"}[tg]
+                elif tg == "label-hint":
+                    r["hint"] = "a hint"
+                elif tg in ("nolabel-tablelist", "nolabel-custom"):
+                    del r["label"]
+                    r["appearance"] = "table-list" if tg.endswith("tablelist") else "w1"
+                    exp[("nolabel", rn, kind, nm)] += 1
                 elif tg == "nolabel-media":
                     del r["label"]
                     r["media::image"] = "g.png"
@@ -542,7 +550,9 @@ def check_row(case):
         t2 = {k: v for k, v in case["trig"].items() if v not in ("disabled-no", "comment")}
         wb2, _ = build_row(forest, t2)
         o2 = run_convert(wb2)
-        if o2.kind == "ok" and o2.xform != out.xform:
+        # (the two helper nodes of a table-list group are named after their row number, which a comment row shifts)
+        gen = lambda x: re.sub(r"(generated_table_list_label|reserved_name_for_field_list_labels)_\d+", r"\1_N", x)
+        if o2.kind == "ok" and gen(o2.xform) != gen(out.xform):
             viol.append(("advisory-changed-result:row", f"trig={case['trig']}"))
     return {"outcome": f"row-{'warn' if exp else 'quiet'}", "nt": bool(case["trig"]) and not viol, "viol": viol, "tr": len(wb["survey"])}
 
